@@ -2,6 +2,7 @@ package main
 
 import (
 	"fmt"
+	"math/big"
 	"go/constant"
 	"go/types"
 	"strconv"
@@ -187,6 +188,10 @@ func (env *SpecEnv) eval(x Expr) Val {
 	switch x := x.(type) {
 	case EInt:
 		v, err := strconv.ParseInt(x.V, 0, 64)
+		if e.ctx.bv {
+			bi, _ := new(big.Int).SetString(x.V, 0)
+			return Val{T: bvLit(bi, 64), S: bvSort(64), GoT: types.Typ[types.Int]}
+		}
 		if err != nil {
 			return intVal(x.V)
 		}
@@ -211,6 +216,12 @@ func (env *SpecEnv) eval(x Expr) Val {
 		case "!":
 			return boolVal(not(v.T))
 		case "-":
+			if e.ctx.bv {
+				if v.S == sF {
+					return Val{T: app("fp.neg", v.T), S: sF, GoT: v.GoT}
+				}
+				return Val{T: app("bvneg", v.T), S: v.S, GoT: v.GoT}
+			}
 			if v.S == sF {
 				return Val{T: app("f_neg", v.T), S: sF, GoT: v.GoT}
 			}
@@ -328,6 +339,9 @@ func (env *SpecEnv) loadRef(ref string, t types.Type) Val {
 	if env.typeOnly {
 		return Val{T: "x", S: s, GoT: t}
 	}
+	if g, ok := e.globalByRef[ref]; ok && e.constGlobal(g) {
+		return e.constGlobalVal(g, t)
+	}
 	switch {
 	case isStruct(t):
 		return Val{T: e.loadObj(env.st, ref, t), S: s, GoT: t}
@@ -420,6 +434,9 @@ func (env *SpecEnv) binary(x EBin) Val {
 		return env.fail("`in` needs a map or set on the right: %s", exprString(x))
 	}
 	l, r := env.eval(x.L), env.eval(x.R)
+	if e.ctx.bv {
+		return env.binaryBV(x, l, r)
+	}
 	// nil against slice / interface
 	if _, ok := x.R.(ENil); ok {
 		r = env.nilOf(l)
@@ -761,16 +778,40 @@ func (env *SpecEnv) callExpr(x ECall) Val {
 		return Val{T: ite(c.T, a.T, b.T), S: a.S, GoT: a.GoT}
 	case "int":
 		v := env.eval(x.Args[0])
+		if e.ctx.bv {
+			if v.S == sF {
+				return Val{T: app("(_ fp.to_sbv 64)", "RTZ", v.T), S: bvSort(64), GoT: types.Typ[types.Int]}
+			}
+			return v
+		}
 		if v.S == sF {
 			return intVal(app("f2i", v.T))
 		}
 		return intVal(v.T)
 	case "float64":
 		v := env.eval(x.Args[0])
+		if e.ctx.bv {
+			if v.S != sF {
+				return Val{T: app("(_ to_fp 11 53)", "RNE", v.T), S: sF, GoT: types.Typ[types.Float64]}
+			}
+			return v
+		}
 		if v.S == sInt {
 			return Val{T: app("i2f", v.T), S: sF, GoT: types.Typ[types.Float64]}
 		}
 		return v
+	case "isNaN":
+		v := env.eval(x.Args[0])
+		if e.ctx.bv {
+			return boolVal(app("fp.isNaN", v.T))
+		}
+		return boolVal(not(app("f_eq", v.T, v.T)))
+	case "finite":
+		v := env.eval(x.Args[0])
+		if e.ctx.bv {
+			return boolVal(and(not(app("fp.isNaN", v.T)), not(app("fp.isInfinite", v.T))))
+		}
+		return boolVal(app("f_fin", v.T))
 	case "typeis":
 		v := env.eval(x.Args[0])
 		id, _ := x.Args[1].(EIdent)
@@ -960,6 +1001,29 @@ func (env *SpecEnv) evalLoc(x Expr) []heapLoc {
 			if p, ok := v.GoT.Underlying().(*types.Pointer); ok {
 				return []heapLoc{{heap: e.boxHeap(p.Elem()), ref: v.T}}
 			}
+		case "pointees":
+			// every field of every object pointed to by an element of the slice
+			if sl, ok := v.GoT.Underlying().(*types.Slice); ok {
+				if p, ok := sl.Elem().Underlying().(*types.Pointer); ok && isStruct(p.Elem()) {
+					var elemT func(k string) string
+					if env.typeOnly {
+						elemT = func(k string) string { return "0" }
+					} else {
+						ht := e.heapTerm(env.st, e.elemHeap(sl.Elem()))
+						elemT = func(k string) string { return e.elemAt(ht, sl.Elem(), v.T, k) }
+					}
+					pred := func(r string) string {
+						e.qn++
+						k := fmt.Sprintf("k_q%d", e.qn)
+						return fmt.Sprintf("(exists ((%s Int)) (and (<= 0 %s) (< %s %s) (= %s %s)))", k, k, k, slLen(v.T), r, elemT(k))
+					}
+					var out []heapLoc
+					for _, hl := range env.allFields("0", p.Elem()) {
+						out = append(out, heapLoc{heap: hl.heap, pred: pred})
+					}
+					return out
+				}
+			}
 		}
 	}
 	env.fail("modifies: cannot interpret location %s", exprString(x))
@@ -1012,3 +1076,83 @@ func (env *SpecEnv) allFields(ref string, t types.Type) []heapLoc {
 }
 
 var _ = constant.MakeBool
+
+// binaryBV: arithmetic and comparisons in bit-precise mode.
+func (env *SpecEnv) binaryBV(x EBin, l, r Val) Val {
+	isF := l.S == sF || r.S == sF
+	if isF {
+		conv := func(v Val) Val {
+			if v.S == sF {
+				return v
+			}
+			return Val{T: app("(_ to_fp 11 53)", "RNE", v.T), S: sF, GoT: types.Typ[types.Float64]}
+		}
+		l, r = conv(l), conv(r)
+		switch x.Op {
+		case "==":
+			return boolVal(app("fp.eq", l.T, r.T))
+		case "!=":
+			return boolVal(not(app("fp.eq", l.T, r.T)))
+		case "<":
+			return boolVal(app("fp.lt", l.T, r.T))
+		case "<=":
+			return boolVal(app("fp.leq", l.T, r.T))
+		case ">":
+			return boolVal(app("fp.gt", l.T, r.T))
+		case ">=":
+			return boolVal(app("fp.geq", l.T, r.T))
+		case "+":
+			return Val{T: app("fp.add", "RNE", l.T, r.T), S: sF, GoT: l.GoT}
+		case "-":
+			return Val{T: app("fp.sub", "RNE", l.T, r.T), S: sF, GoT: l.GoT}
+		case "*":
+			return Val{T: app("fp.mul", "RNE", l.T, r.T), S: sF, GoT: l.GoT}
+		case "/":
+			return Val{T: app("fp.div", "RNE", l.T, r.T), S: sF, GoT: l.GoT}
+		}
+		return env.fail("operator %s on floats not supported", x.Op)
+	}
+	if l.S == sBool || l.S == sStr || l.S == sIface {
+		switch x.Op {
+		case "==":
+			return boolVal(eq(l.T, r.T))
+		case "!=":
+			return boolVal(not(eq(l.T, r.T)))
+		}
+	}
+	signed := true
+	if l.GoT != nil {
+		_, signed = bvWidth(l.GoT)
+	}
+	pick := func(s, u string) string {
+		if signed {
+			return s
+		}
+		return u
+	}
+	switch x.Op {
+	case "==":
+		return boolVal(eq(l.T, r.T))
+	case "!=":
+		return boolVal(not(eq(l.T, r.T)))
+	case "<":
+		return boolVal(app(pick("bvslt", "bvult"), l.T, r.T))
+	case "<=":
+		return boolVal(app(pick("bvsle", "bvule"), l.T, r.T))
+	case ">":
+		return boolVal(app(pick("bvsgt", "bvugt"), l.T, r.T))
+	case ">=":
+		return boolVal(app(pick("bvsge", "bvuge"), l.T, r.T))
+	case "+":
+		return Val{T: app("bvadd", l.T, r.T), S: l.S, GoT: l.GoT}
+	case "-":
+		return Val{T: app("bvsub", l.T, r.T), S: l.S, GoT: l.GoT}
+	case "*":
+		return Val{T: app("bvmul", l.T, r.T), S: l.S, GoT: l.GoT}
+	case "/":
+		return Val{T: app(pick("bvsdiv", "bvudiv"), l.T, r.T), S: l.S, GoT: l.GoT}
+	case "<<":
+		return Val{T: app("bvshl", l.T, r.T), S: l.S, GoT: l.GoT}
+	}
+	return env.fail("operator %s not supported in bv mode", x.Op)
+}
